@@ -300,8 +300,17 @@ def check(rec, kind, idx, rng, tier):
         passes = int(rng.choice([0, 1, 1, 2, 3]))
         exname = str(rng.choice(['default', 'nan', 'zero', 'nan_zero', 'two', 'value']))
         excl = {'default': None, 'nan': [np.nan], 'zero': [0], 'nan_zero': [np.nan, 0.0], 'two': [1.0, 2.0]}.get(exname)
+        if exname == 'value' and rng.random() < 0.6:
+            z = rng.uniform(-100, 100, (H, W))                       # float64 values that float32 cannot represent
+            if rng.random() < 0.5:
+                z[rng.random((H, W)) < 0.3] = z[int(rng.integers(0, H)), int(rng.integers(0, W))]   # the excluded value occurs several times
+            dtype = 'float64'
+            r = gen.mk(z, attrs={'res': (geom['cx'], geom['cy'])}, **geom)
+            z32 = z.astype('float32').astype('float64')
         if exname == 'value':
-            fin = z32[np.isfinite(z32)]
+            # an excluded value taken from the raster itself, in the raster's own precision (float64 values are generally
+            # not representable in float32)
+            zf = z.astype('float64'); fin = zf[np.isfinite(zf)]
             excl = [float(fin[int(rng.integers(0, len(fin)))])] if len(fin) else [5.0]
         kw = dict(passes=passes)
         if rng.random() < 0.3 and passes == 1:
